@@ -79,7 +79,14 @@ func (ir *ifdReader) DecodeIfd(r io.Reader, h meta.ExifHeader) (err error) {
 	ir.Exif.ImageType = h.ImageType
 	ir.exifLength = h.ExifLength
 	ir.firstIfdOffset = h.FirstIfdOffset
-	ir.po = h.FirstIfdOffset
+	// the caller has consumed the 8-byte TIFF header: the reader stands at offset 8 of the Exif block, which is where
+	// the first IFD usually, but not necessarily, starts
+	ir.po = 8
+	if h.FirstIfdOffset > 8 {
+		if err = ir.discard(int(h.FirstIfdOffset) - 8); err != nil {
+			return err
+		}
+	}
 	err = ir.readIfd(ifds.NewIFD(h.ByteOrder, ifds.IfdType(h.FirstIfd), 0, ir.tiffHeaderOffset, 0))
 	return err
 }
